@@ -106,9 +106,11 @@ def _leaves(e):
     return [e]
 
 
-def _existing_or_empty(e, existing):
-    """`e` is the existing value, or an empty container where there is none"""
-    lv = [A.norm(x) for x in _leaves(e)]
+def _existing_or_empty(es, existing):
+    """the expressions `es` (alternatives on different paths) are the existing value, or an empty container
+    where there is none"""
+    es = es if isinstance(es, list) else [es]
+    lv = [A.norm(x) for e in es for x in _leaves(e)]
     return existing in lv and all(x == existing or x in ("()", "{}", "[]", "tuple()", "dict()", "list()") for x in lv)
 
 
@@ -174,15 +176,25 @@ def check(ck):
     dec_types = _value_types(dec, DP)
     nj_types = _value_types(nj, NP)
     # the canonical writer may also be the library's own: json.dumps(obj, sort_keys=True, separators=(',', ':'))
-    nj_rets = [r for r in nj.returns() if nj.nodes(r)]
-    lib_writer = bool(nj_rets)
-    for r in nj_rets:
-        e = strip_cast(nj.expand(r.value, nj.nodes(r)[0])) if r.value is not None else None
-        okl = isinstance(e, ast.Call) and A.call_dotted(e) == "json.dumps" and [A.norm(a) for a in e.args] == [NP] \
-            and {k.arg for k in e.keywords} <= {"sort_keys", "separators", "ensure_ascii", "allow_nan"} \
-            and A.norm(A.kwarg(e, "sort_keys")) == "True" and A.norm(A.kwarg(e, "separators")) in ("(',', ':')", "[',', ':']") \
-            and A.norm(A.kwarg(e, "ensure_ascii")) in ("", "True") and A.norm(A.kwarg(e, "allow_nan")) in ("", "True")
-        lib_writer = lib_writer and okl
+    def prim_lit(t, p, P):
+        return p and (("%s is None" % P) in t or ("isinstance(%s" % P in t and any(x in t for x in PRIMS)))
+
+    nj_cases = result_cases(nj)
+    n_canon = 0
+    lib_writer = bool(nj_cases)
+    for (conj, v, at) in nj_cases:
+        e = strip_cast(nj.expand(v, at))
+        if not (isinstance(e, ast.Call) and A.call_dotted(e) == "json.dumps" and [A.norm(a) for a in e.args] == [NP]):
+            lib_writer = False
+        elif not e.keywords:
+            lib_writer = lib_writer and any(prim_lit(t, p, NP) for (t, p) in conj)
+        else:
+            okl = {k.arg for k in e.keywords} <= {"sort_keys", "separators", "ensure_ascii", "allow_nan"} \
+                and A.norm(A.kwarg(e, "sort_keys")) == "True" and A.norm(A.kwarg(e, "separators")) in ("(',', ':')", "[',', ':']") \
+                and A.norm(A.kwarg(e, "ensure_ascii")) in ("", "True") and A.norm(A.kwarg(e, "allow_nan")) in ("", "True")
+            lib_writer = lib_writer and okl
+            n_canon += 1
+    lib_writer = lib_writer and n_canon >= 1
     vas = ck.repo.func("reference.validate_args").nested
     va = vas.get("validate_arg") or (list(vas.values())[0] if len(vas) == 1 else None)
     ck.need(va is not None, "validate_args.validate_arg not found")
@@ -367,12 +379,12 @@ def check(ck):
                              for x in ast.walk(scope))
     ck.ob(R2, nj.key(di, "keys-json-quoted"), bool(okk), "keys are JSON string literals" if okk else "mapping keys are not written with json.dumps(key)", nj.where(di))
     okp = lib_writer
-    for (conj, v, at) in result_cases(nj):
+    for (conj, v, at) in nj_cases:
         try:
             txt = nj.xnorm(v, at)
         except AnalysisError:
             txt = A.norm(v)
-        if txt == "json.dumps(%s)" % NP and any(p and (("%s is None" % NP) in t or ("isinstance(%s" % NP in t and any(x in t for x in PRIMS))) for (t, p) in conj):
+        if txt == "json.dumps(%s)" % NP and any(prim_lit(t, p, NP) for (t, p) in conj):
             okp = True
     ck.ob(R2, nj.key(None, "primitives"), okp, "primitives are written by json.dumps" if okp else "primitives are not written with json.dumps(obj)", nj.where())
     own = nj.fi.name
@@ -568,6 +580,15 @@ def check(ck):
     self_kwargs = ast.parse("self.kwargs", mode="eval").body
     pairs = set(odd)
     rem = None     # (names expression, node) of the binding of the call's positional arguments
+    def unsliced(e):
+        # a prefix of a sequence keeps its order: names[:n] binds like names
+        e = strip_cast(e)
+        while isinstance(e, ast.Subscript) and isinstance(e.slice, ast.Slice) and e.slice.step is None \
+                and (e.slice.lower is None or A.norm(e.slice.lower) == "0"):
+            e = strip_cast(e.value)
+        return e
+
+    pos_bind = [(unsliced(N), unsliced(S), at, s) for (N, S, at, s) in pos_bind]
     for (N, S, at, s) in pos_bind:
         nt, vt = ftext(ini, N, at), ftext(ini, S, at)
         if vt == ftext(ini, self_args, at):
@@ -675,7 +696,7 @@ def check(ck):
             da = pa.df.reaching(at, va_.id)
             aug = [d for d in da if d.kind == "aug" and isinstance(d.stmt.op, ast.Add) and new_positional(d.value)]
             base = [d for d in da if d.kind == "assign"]
-            oka_ = len(aug) == 1 and len(da) == len(aug) + len(base) and bool(base) and all(_existing_or_empty(pa.expand(d.value, d.node), XA) for d in base)
+            oka_ = len(aug) == 1 and len(da) == len(aug) + len(base) and bool(base) and _existing_or_empty([pa.expand(d.value, d.node) for d in base], XA)
         if not oka_:
             e = strip_cast(pa.expand(va_, at))
             oka_ = isinstance(e, ast.BinOp) and isinstance(e.op, ast.Add) and _existing_or_empty(e.left, XA) and new_positional(e.right)
@@ -685,8 +706,8 @@ def check(ck):
             dk = [d for d in pa.df.reaching(at, vk_.id)]
             upd = [c for c in pa.calls("update") if A.norm(A.call_recv(c)) == vk_.id and
                    ([A.norm(a) for a in c.args] == [kwarg_] and not c.keywords or (not c.args and len(c.keywords) == 1 and c.keywords[0].arg is None and A.norm(c.keywords[0].value) == kwarg_))]
-            okk_ = bool(dk) and all(d.kind == "assign" and d.value is not None and _existing_or_empty(pa.expand(d.value, d.node), XK) for d in dk) and len(upd) == 1 \
-                and all(pa.cfg.must_pass(pa.nodes(upd[0]), i) for i in pa.nodes(cw[0])) and any(XK in pa.xnorm(d.value, d.node) for d in dk)
+            okk_ = bool(dk) and all(d.kind == "assign" and d.value is not None for d in dk) and _existing_or_empty([pa.expand(d.value, d.node) for d in dk], XK) \
+                and len(upd) == 1 and all(pa.cfg.must_pass(pa.nodes(upd[0]), i) for i in pa.nodes(cw[0]))
         if not okk_:
             e = strip_cast(pa.expand(vk_, at))
             if isinstance(e, ast.Dict) and len(e.keys) == 2 and e.keys[0] is None and e.keys[1] is None:
